@@ -36,11 +36,10 @@ ASSUMPTIONS = [
     "swizzle/swap, flatten/unflatten and merge are driven",
     "merge in the non-zero-default family: only points are reduced (a stored payload equal to the leaf default is not a "
     "point); sums / maxima of the values used never equal 7 or -1",
-    "three sub-families of the non-zero-default / empty-interior-fiber family deviate on the unchanged tree and are kept out "
-    "of run() (module constant PENDING, reported to the lead; `./check C09 --only pending` runs exactly them): "
-    "flatten/merge with levels >= 3 over a stored empty interior fiber when the leaf default is not 0 or the style is "
-    "linear / pair; mergeRanks with colliding sub-fibers when merge_fn(value, default) != value; mergeRanks with "
-    "colliding sub-fibers and levels >= 2 when the leaf default is not 0",
+    "three sub-families of the non-zero-default / empty-interior-fiber family deviated on the pinned tree (flatten/merge "
+    "with levels >= 3 over a stored empty interior fiber; mergeRanks with colliding sub-fibers when "
+    "merge_fn(value, default) != value; mergeRanks with colliding sub-fibers and levels >= 2 under a non-zero default): "
+    "repaired by fixes 35b1f3d and 9085311, they run in both tiers (module constant PENDING is empty)",
     "style 'linear' is only generated where the flattened lower ranks have an authoritative shape (declared tensor "
     "shape / Fiber(shape=)), which Fiber._flattenCoords documents as required",
     "flattenRanks with 'absolute'/'relative' is only judged when no two *stored* elements of the lowest flattened "
@@ -82,7 +81,7 @@ GROUPS = ("swizzle", "flatten", "merge", "split", "update")
 #                        merge_fn(value, default) != value (sum with default 7 / -1, max with default 7 over a stored 0)
 #  merged-fiber-default  same collision, levels >= 2: the fiber made by Fiber._mergeToFibertree has no default (0), the
 #                        next level up drops its leaves equal to 0
-PENDING = {"placeholder-default", "phantom-default", "merged-fiber-default"}
+PENDING = set()      # all three sub-families repaired (fixes 35b1f3d, 9085311): part of both tiers
 
 
 # ---------------------------------------------------------------------------
